@@ -401,6 +401,12 @@ def r7(ctx):
         raise AnchorError("wire flag returns: %d" % n)
 
 
+def r8(ctx):
+    """'reaches the master's handler with the same index ...': a range header whose stop was patched ahead of a value that then did
+    not fit makes the master reject the whole fragment; the back-patch ordering is rule C09.R10 (shared code)."""
+    import c09
+    c09.r10(ctx)
+
 RULES = [
     ("C10.R1", "T10", "census of narrowing casts: range-guarded or listed truncation", r1),
     ("C10.R2", "T2", "saturating analog conversions return MIN/MAX with OVER_RANGE", r2),
@@ -409,4 +415,5 @@ RULES = [
     ("C10.R5", "T8/T4", "CTO applied on the master; CTO kind namesake on both sides", r5),
     ("C10.R6", "T8-namesake", "conversions fill value/flags/time from the like-named source", r6),
     ("C10.R7", "T8", "the wire flag octet of stateful points carries the value in its state bit(s) on every path", r7),
+    ("C10.R8", "T3", "a static range cut by a full fragment keeps its stop index consistent with the data written (shared with C09.R10)", r8),
 ]
